@@ -70,6 +70,10 @@ func describeFilter(e Event, f *gcs.Filter, key [16]byte, p uint8, m uint64, ite
 	nb, _ := f.NBytes()
 	pb, _ := f.PBytes()
 	npb, _ := f.NPBytes()
+	retain("GCS", "Bytes", b)
+	retain("GCS", "NBytes", nb)
+	retain("GCS", "PBytes", pb)
+	retain("GCS", "NPBytes", npb)
 	e["bytes"], e["nb"], e["pb"], e["npb"] = ints(b), ints(nb), ints(pb), ints(npb)
 	e["rn"], e["rp"] = int(f.N()), int(f.P())
 	answer := func(ff *gcs.Filter) ([]interface{}, []interface{}) {
